@@ -158,7 +158,7 @@ theorem skipped_is_identity (c : Cfg) (hc : c.applies = false) (h : List Op) (op
       | .getTimes => .times .pre | .getLonLat => .lonlat .pre | .dataset => .dataset .pre .pre .pre
       | .calibrated => .calibrated .pre .pre .pre | .angles => .angles .pre .pre
       | .getMask => .mask | .getQualFlags => .qual | .getCounts => .counts | .getTelemetry => .tele
-      | .readMeta => .metaOut none := by
+      | .readMeta => .metaOut none | .save => .saved .pre := by
   have hfin : c.final = .pre := by simp [Cfg.final, hc]
   by_cases h1 : op = .getTimes
   · subst h1
